@@ -116,6 +116,35 @@ func c02One(o *out, text string, kind string) {
 	if stmtSexp(st) != stmtSexp(st2) {
 		o.fail(c02Classify(st, printed), fmt.Sprintf("%q prints %q which re-parses to a different AST (%s)", text, printed, st2.String()), rp)
 	}
+	// printing shows the statement as it is now: printed again it is the same text, and a statement that was printed
+	// and is then changed prints like one that was changed the same way and never printed
+	o.checked()
+	if again := st.String(); again != printed {
+		o.fail("", fmt.Sprintf("%q prints %q the first time and %q the second", text, printed, again), rp)
+	}
+	if q, ok := st.(*influxql.SelectStatement); ok {
+		change := func(s *influxql.SelectStatement) {
+			s.Limit += 3
+			s.Fields = append(s.Fields, &influxql.Field{Expr: &influxql.VarRef{Val: "added field"}, Alias: "x"})
+			s.Condition = &influxql.BinaryExpr{Op: influxql.EQ, LHS: &influxql.VarRef{Val: "k"}, RHS: &influxql.StringLiteral{Val: "v'"}}
+			for _, src := range s.Sources {
+				if m, ok := src.(*influxql.Measurement); ok {
+					m.Database += "db2"
+				}
+			}
+		}
+		if f, err := influxql.ParseStatement(text); err == nil {
+			fresh := f.(*influxql.SelectStatement)
+			cl := q.Clone()
+			change(q)
+			change(fresh)
+			change(cl)
+			o.checked()
+			if a, b, c := q.String(), fresh.String(), cl.String(); a != b || c != b {
+				o.fail("", fmt.Sprintf("after changing %q: a statement that was printed before prints %q, its clone %q, one that was never printed %q", text, a, c, b), rp)
+			}
+		}
+	}
 }
 
 func propC02(o *out, r *rng, thorough bool) {
